@@ -462,3 +462,47 @@ func GenerateCursor(seed int64, caseNo int, pageSize int, opts OpenOpts) *Progra
 	g.emit(Step{Op: "close"})
 	return g.p
 }
+
+// GenerateBigFree builds a history whose freelist spans several pages (more
+// free ids than fit one page): a large bucket is filled and deleted, then
+// small transactions follow while the long freelist is rewritten on every
+// commit. Multi-page freelists need a contiguous run for every commit.
+func GenerateBigFree(seed int64, caseNo int, pageSize int, opts OpenOpts) *Program {
+	r := rand.New(rand.NewSource(seed*1000003 + int64(caseNo)*7919 + 9))
+	cfg := Config{Profile: "mixed", PageSize: pageSize, KeySpace: 40, NoBigKeys: true}
+	cfg.defaults()
+	g := &genState{r: r, cfg: cfg, sim: NewSim(), p: &Program{Name: "bigfree", Seed: seed, Case: caseNo}}
+	opts.PageSize = pageSize
+	g.emit(Step{Op: "open", Opts: &opts})
+	idsPerPage := (pageSize - 16) / 8
+	n := idsPerPage*2 + idsPerPage/2 + r.Intn(idsPerPage)
+	g.emit(Step{Op: "begin", W: true})
+	g.emit(Step{Op: "create", N: 0})
+	g.emit(Step{Op: "create", N: 1})
+	for i := 0; i < n; i++ {
+		g.emit(Step{Op: "put", P: []int{0}, K: &K{ID: i}, V: &V{Seed: uint32(i), Len: pageSize * 6 / 10}})
+	}
+	g.emit(Step{Op: "commit"})
+	g.emit(Step{Op: "begin", W: true})
+	g.emit(Step{Op: "delBucket", N: 0})
+	g.emit(Step{Op: "put", P: []int{1}, K: &K{ID: 1}, V: &V{Seed: 1, Len: 20}})
+	g.emit(Step{Op: "commit"})
+	for t := 0; t < 5; t++ {
+		g.emit(Step{Op: "begin", W: true})
+		m := 1 + r.Intn(4)
+		for i := 0; i < m; i++ {
+			g.emit(Step{Op: "put", P: []int{1}, K: &K{ID: r.Intn(20)}, V: &V{Seed: r.Uint32(), Len: r.Intn(60)}})
+		}
+		if r.Intn(3) == 0 {
+			g.emit(Step{Op: "del", P: []int{1}, K: &K{ID: r.Intn(20)}})
+		}
+		g.emit(Step{Op: "commit"})
+		if t == 2 && r.Intn(2) == 0 {
+			g.emit(Step{Op: "close"})
+			o := opts
+			g.emit(Step{Op: "reopen", Opts: &o})
+		}
+	}
+	g.emit(Step{Op: "close"})
+	return g.p
+}
